@@ -78,6 +78,9 @@ func Install(p Policy) *Sched {
 	return s
 }
 
+// Current returns the installed scheduler (nil if none).
+func Current() *Sched { return cur.Load() }
+
 // Uninstall removes the active scheduler.
 func Uninstall() { cur.Store(nil) }
 
@@ -205,6 +208,12 @@ func Exit() {
 		}
 	}
 	s.mu.Unlock()
+	// wake the driver: a runner that ran to completion without parking changed harness-visible
+	// state (a finished call) that the driver's monitors / done predicate must re-evaluate
+	select {
+	case s.wake <- struct{}{}:
+	default:
+	}
 	if r != nil {
 		if OnPanic != nil && id != "" {
 			OnPanic(id, r, debug.Stack())
